@@ -5,7 +5,7 @@
    implementation's output; agreement with CommonMark itself is validated
    differentially on every run (checks/C35.md), it is not a theorem. *)
 From Coq Require Import String.
-From verif Require Import lib.Base model.C35_Bal model.C35_Inline model.C35 proofs.C35_proofs.
+From verif Require Import lib.Base model.C35_Bal model.C35_Inline model.C35 proofs.C35_proofs proofs.C35_naive.
 
 (* The delimiter-stack loop of processEmphasis terminates on every delimiter
    stack: the measure (remaining delimiter text + entries still to scan)
@@ -13,6 +13,24 @@ From verif Require Import lib.Base model.C35_Bal model.C35_Inline model.C35 proo
 Theorem C35_processEmphasis_terminates : forall ents, process_emphasis ents <> None.
 Proof. exact process_emphasis_terminates. Qed.
 Print Assumptions C35_processEmphasis_terminates.
+
+(* The opener lower bounds (openersBottom, indexed by delimiter kind, length
+   mod 3 and whether the closer can also open) are only an optimisation: on every
+   delimiter stack whose identities increase along the stack and whose closers
+   are star or underscore runs (what the inline parser builds), the model computes
+   exactly what the loop that searches the whole stack for every closer computes.
+   A wrong or missing dimension of the table in the implementation therefore
+   shows up as a broken correspondence on the stacks where it matters. *)
+Theorem C35_openers_bottom_is_only_an_optimisation : forall ents fuel,
+  Sorted.StronglySorted lt (dids ents) -> right_ok ents ->
+  pe fuel [] ents [] = pe_naive fuel [] ents.
+Proof. exact openers_bottom_only_optimises. Qed.
+Print Assumptions C35_openers_bottom_is_only_an_optimisation.
+
+Theorem C35_runner_stacks_are_sorted : forall ds,
+  Sorted.StronglySorted lt (dids (build_entries ds)).
+Proof. exact build_entries_sorted. Qed.
+Print Assumptions C35_runner_stacks_are_sorted.
 
 (* For every delimiter stack, the emphasis start/end operations emitted are
    balanced and properly nested, strong with strong and plain with plain. *)
